@@ -85,7 +85,8 @@ class Sc:
     """one run of the grid"""
 
     def __init__(self, name, cmd, argv, kind="both", pre=(), effect="none", row=None, fail=None, site=None, git=False,
-                 mutate=None, tier="quick", cls="ok", tty=False, lock=False):
+                 mutate=None, tier="quick", cls="ok", tty=False, lock=False, tree=None, expect=None):
+        self.tree, self.expect = tree, expect     # explicit tree / expected tree (effect "custom") instead of the `kind` families
         self.lock = lock              # another process holds .renamify/renamify.lock while the command runs
         self.tty = tty                # stdin and stdout are a terminal (answer `y`): outside the model's rows
         self.name, self.cmd, self.argv, self.kind, self.pre = name, cmd, list(argv), kind, list(pre)
@@ -167,6 +168,30 @@ def scenarios(thorough):
                     site="err_arm", row=row, cls="non-utf8-path"))
     S.append(Sc("replace/empty-pattern", "replace", ["replace", "", "x", "--no-regex", "-y"] + J + NA, effect="impossible",
                 fail="create_simple_plan", site="err_arm", row={"yes": True, "noregex": True}, cls="invalid-pattern"))
+    # a search PATH argument that is itself a directory named after the term: its own rename is held back unless
+    # --rename-root is given, and the operation then adds a "Next step (root directory rename): mv …" hint to the preview it
+    # returns (summary format only) — the one place where rename_operation produces text after applying
+    def proj(d, inner, content):
+        t = {"keep.txt": ("f", b"nothing here\n", 0o644), d + "/notes.txt": ("f", b"unrelated\n", 0o644)}
+        if content is not None:
+            t[d + "/src/main.rs"] = ("f", content, 0o644)
+            t[d + "/docs/" + inner] = ("f", b"plain\n", 0o644)
+        return t
+    R0 = proj("foo_bar_proj", "foo_bar.txt", b"let foo_bar = 1; // FooBar\n")
+    R_in = proj("foo_bar_proj", "baz_qux.txt", b"let baz_qux = 1; // BazQux\n")       # everything below the root renamed
+    R_all = proj("baz_qux_proj", "baz_qux.txt", b"let baz_qux = 1; // BazQux\n")      # … and the root itself
+    R_only = proj("foo_bar_proj", None, None)                                           # nothing but the root matches
+    for rsfx, rflag, exp in (("", [], R_in), ("+rename-root", ["--rename-root"], R_all), ("+no-rename-root", ["--no-rename-root"], R_in)):
+        for fsfx, fmt in (("", J), ("+summary", [])):
+            for q in (False, True):
+                S.append(Sc(f"rename/root-path{rsfx}{fsfx}" + ("+quiet" if q else ""), "rename",
+                            ["rename", TERM, REPL, "foo_bar_proj", "-y"] + rflag + fmt + NA + (["--quiet"] if q else []),
+                            tree=R0, expect=exp, effect="custom", row={"yes": True, "quiet": q}, cls="root-path"))
+    for fsfx, fmt in (("", J), ("+summary", [])):
+        S.append(Sc(f"plan/root-path{fsfx}", "plan", ["plan", TERM, REPL, "foo_bar_proj"] + fmt + NA, tree=R0, effect="plan_written",
+                    cls="root-path"))
+        S.append(Sc(f"rename/root-path-only{fsfx}", "rename", ["rename", TERM, REPL, "foo_bar_proj", "-y"] + fmt + NA, tree=R_only,
+                    expect=R_only, effect="custom", row={"yes": True, "nomatches": True, "norenames": True}, cls="root-path"))
     # apply / undo / redo / history / status after real operations
     plan_pre = [["plan", TERM, REPL, "--quiet"] + NA]
     ren_pre = [["rename", TERM, REPL, "-y", "--quiet"] + NA]
@@ -440,7 +465,7 @@ def hold_lock(root):
 def execute(sc):
     """run one scenario in a fresh scratch tree -> observation dict"""
     with common.scratch("renamify-verif.c19.") as root:
-        common.materialize(root, tree(sc.kind))
+        common.materialize(root, sc.tree if sc.tree is not None else tree(sc.kind))
         if sc.kind == "nonutf8":
             with open(os.path.join(root.encode(), b"docs", b"foo_bar_\xff.txt"), "wb") as fh:
                 fh.write(b"plain\n")
@@ -501,6 +526,9 @@ def execute(sc):
             achieved = base is not None and same_tree(after, renamed(sc.kind)) and h1 == h0 + 1
         elif eff == "replaced":
             achieved = same_tree(after, replaced(sc.kind)) and h1 == h0 + 1
+        elif eff == "custom":
+            changed_expected = sc.expect != sc.tree
+            achieved = same_tree(after, sc.expect) and h1 == h0 + (1 if changed_expected else 0)
         elif eff == "restored":
             achieved = same_tree(after, tree(sc.kind)) and h1 == h0 + 1
         else:
@@ -521,7 +549,7 @@ def judge(sc, obs, decls, expect):
     bad = []
     reported = bool(ERR_REPORT.search(obs["stderr"]))
     rc = obs["rc"]
-    if sc.is_json or sc.site in ("clap", "pre_dispatch"):
+    if sc.is_json:         # (a command line that does not literally ask for `--output json`, e.g. `--output bogus`, owes no document)
         if obs["ndocs"] != 1 or obs["junk"]:
             if obs["ndocs"] == 0 and not obs["junk"]:
                 bad.append(("no_document", f"stdout is empty (status {rc})" if obs["stdout_len"] == 0 else "stdout holds no JSON value"))
@@ -529,6 +557,12 @@ def judge(sc, obs, decls, expect):
                 bad.append(("several_documents", f"{obs['ndocs']} JSON values on stdout"))
             else:
                 bad.append(("text_on_stdout", f"non-JSON text on stdout: {obs['junk'][:2]}"))
+        elif obs["doc"] is not None and rc != 0:
+            # a failing command: the wrappers reject on the status and never parse stdout; the document must say it failed
+            d = obs["doc"]
+            if not (isinstance(d, dict) and d.get("success") is False and isinstance(d.get("error"), str) and d["error"]):
+                bad.append(("error_document_shape", f"status {rc} with a document that is not {{\"success\":false,\"error\":<message>}}: "
+                            f"{json.dumps(d)[:120]}"))
         elif obs["doc"] is not None:
             errs = []
             for label, t in expect.get(sc.cmd, []):
@@ -684,7 +718,8 @@ def run_scenarios(ctx, scs, decls, expect, models):
             ctx.count("skipped")
             continue
         ctx.count(f"exit:{obs['rc']}")
-        case = {"scenario": sc.name, "argv": sc.argv, "tree": sc.kind, "pre": sc.pre, "mutate": sc.mutate, "git": sc.git}
+        case = {"scenario": sc.name, "argv": sc.argv, "pre": sc.pre, "mutate": sc.mutate, "git": sc.git,
+                "tree": sc.kind if sc.tree is None else {p: n[1].decode("utf-8", "replace") for p, n in sorted(sc.tree.items())}}
         verdicts = judge(sc, obs, decls, expect)
         shape_bad = any(k == "shape" for k, _ in verdicts)
         for kind, detail in verdicts:
@@ -713,15 +748,7 @@ def run_scenarios(ctx, scs, decls, expect, models):
                     "keys": sorted(obs["doc"]) if isinstance(obs["doc"], dict) else None, "model": mline[:160]})
 
 
-WITNESS_SLUGS = {
-    "C19_witness_error_path_no_document": ["error_path_no_document"],
-    "C19_witness_error_path_no_document_undo": ["error_path_no_document"],
-    "C19_witness_replace_json_quiet_no_document": ["replace_json_quiet_no_document"],
-    "C19_witness_history_shape_mismatch": ["history_shape_mismatch"],
-    "C19_witness_status_shape_mismatch": ["status_shape_mismatch"],
-    "C19_witness_replace_early_return": ["replace_json_not_applied"],
-    "C19_witness_replace_json_not_applied": ["replace_json_not_applied"],
-}
+WITNESS_SLUGS = {}      # no theorem of Props/C19*.lean is a witness that a repair would falsify (history/status are stated over generated flags)
 
 
 def failing_theorems(detail):
@@ -764,7 +791,7 @@ def run(ctx):
     ctx.cov["exhaustive"] = True
     ctx.cov["rule"] = ("CLI grid, every cell run once in a fresh scratch tree: commands {plan, search, rename, replace, apply, undo, redo, history, "
                        "status, version} x scenario class {matches+renames, matches only, renames only, none, nonexistent path, unknown id, missing/"
-                       "corrupt plan file, invalid regex, empty literal pattern, a matched path that is not valid UTF-8, the workspace lock held by another process, rename conflict, stale plan (same length / truncated), no confirmation, invalid flag "
+                       "corrupt plan file, invalid regex, empty literal pattern, a matched path that is not valid UTF-8, the workspace lock held by another process, a search path that is a term-named directory (with / without --rename-root / --no-rename-root, json and summary), rename conflict, stale plan (same length / truncated), no confirmation, invalid flag "
                        "value (clap), bad -C / --auto-init (exits before dispatch), first run in/outside a git repository with/without -y, "
                        "--no-auto-init, --auto-init repo, rename on a pseudo-terminal with / without -y} x {--quiet, --dry-run where accepted}; "
                        "thorough additionally x every --preview value. "
